@@ -19,14 +19,19 @@ class fs_provider : public ifs_provider
 public:
     std::string read_file(const std::filesystem::path& path) override
     {
-        std::ifstream is{path, std::ios::in | std::ios::binary | std::ios::ate};
+        std::ifstream is{path, std::ios::in | std::ios::binary};
         if(is)
         {
-            const auto file_size = is.tellg();
+            // don't trust the reported size: for a directory (which can be
+            // opened for reading) it's meaningless and can be huge
             std::string data;
-            data.resize(file_size);
-            is.seekg(0);
-            if(is.read(data.data(), file_size))
+            char chunk[4096];
+            while(is.read(chunk, sizeof(chunk)))
+            {
+                data.append(chunk, sizeof(chunk));
+            }
+            data.append(chunk, static_cast<std::size_t>(is.gcount()));
+            if(!is.bad())
             {
                 return data;
             }
